@@ -245,8 +245,27 @@ func (vc *FuncVC) header() string {
 	b.WriteString(prelude)
 	b.WriteString(vc.ss.declStructs())
 	sp := vc.eng.specs
+	known := func(srt string) bool {
+		for _, w := range strings.FieldsFunc(srt, func(r rune) bool { return r == '(' || r == ')' || r == ' ' }) {
+			switch w {
+			case "Array", "Int", "Bool", "String", "Real", "Iface", "Slice":
+				continue
+			}
+			if _, ok := vc.ss.structs[w]; !ok {
+				return false
+			}
+		}
+		return true
+	}
 	for _, n := range sp.FunOrder {
 		fd := sp.Funs[n]
+		ok := known(fd.Ret)
+		for _, a := range fd.Args {
+			ok = ok && known(a)
+		}
+		if !ok {
+			continue // mentions a struct sort this script does not declare: cannot be used here
+		}
 		if fd.Def != "" {
 			var ps []string
 			for i, a := range fd.Args {
